@@ -92,7 +92,7 @@ func runC17(c *fw.Case) (o fw.Outcome) {
 	case 1:
 		o.Tag("snssai")
 		for sst := 0; sst < 256; sst++ {
-			for _, sd := range []string{"", "000000", "ffffff", "FFFFFF", hexs(rbytes(r, 3)), strings.ToUpper(hexs(rbytes(r, 3)))} {
+			for _, sd := range []string{"", "000000", "ffffff", "FFFFFF", hexs(rbytes(r, 3)), strings.ToUpper(hexs(rbytes(r, 3))), sdString(r), mixCase(r, pick(r, "abcdef", "fedcba", "aabbcc", "dededf"))} {
 				o.Input = fmt.Sprintf("SnssaiToNas sst=%d sd=%q", sst, sd)
 				got := nasConvert.SnssaiToNas(models.Snssai{Sst: int32(sst), Sd: sd})
 				if m := retainCheck("snssai", got, o.Input); m != "" {
@@ -129,8 +129,23 @@ func runC17(c *fw.Case) (o fw.Outcome) {
 				v &= 0xffffff
 			}
 			s := fmt.Sprintf("%06x", v)
-			if i%2 == 0 {
+			switch i % 4 { // TS 29.571 AmfId: ^[A-Fa-f0-9]{6}$ - every character may have either case
+			case 0:
 				s = strings.ToUpper(s)
+			case 1:
+				s = mixCase(r, s)
+			case 2:
+				if c.Thorough() {
+					s = mixCase(r, s) // the enumeration keeps every value
+				} else if i%8 == 2 { // letters only, case per character
+					v = v&0x888888 | 0x222222 | uint32(r.Intn(1<<24))&0x555555
+					for sh := uint(0); sh < 24; sh += 4 {
+						if (v>>sh)&0xf < 10 {
+							v |= 0xa << sh
+						}
+					}
+					s = mixCase(r, fmt.Sprintf("%06x", v))
+				}
 			}
 			o.Input = "AmfIdToNas " + s
 			reg, set, ptr := nasConvert.AmfIdToNas(s)
